@@ -232,7 +232,40 @@ func runC39(c *Ctx) {
 				}
 			}
 			present = collect(rest)
+			// the absent branch taken under more than `c == nil`: a present aggregate is written as absent
+			widened := ""
+			for _, st := range loop.Body.List {
+				is, ok := st.(*ast.IfStmt)
+				if !ok || sawNil {
+					continue
+				}
+				be, ok := unparen(is.Cond).(*ast.BinaryExpr)
+				if !ok || be.Op != token.LOR {
+					continue
+				}
+				var others []string
+				hasNil := false
+				var flat func(e ast.Expr)
+				flat = func(e ast.Expr) {
+					if b, ok := unparen(e).(*ast.BinaryExpr); ok && b.Op == token.LOR {
+						flat(b.X)
+						flat(b.Y)
+						return
+					}
+					if canon(e) == cv+"==nil" {
+						hasNil = true
+					} else {
+						others = append(others, canon(e))
+					}
+				}
+				flat(is.Cond)
+				if hasNil && len(others) > 0 && strings.Join(collect(is.Body.List), ",") == "uvarint(0)" {
+					widened = strings.Join(others, " || ")
+				}
+			}
 			switch {
+			case widened != "":
+				bad = "a present (non-nil) aggregate is written as the zero-length absent marker when `" + widened + "`: Get then reports ErrAggrNotExist for an aggregate that was handed to the encoder"
 			case !sawNil:
 				bad = "the encoder is not built by appending per entry with an `if c == nil` branch (not understood; re-confirm that it emits uvarint(len), encoding byte, data per present entry and uvarint(0) per absent one)"
 			case strings.Join(absent, ",") != "uvarint(0)":
